@@ -67,11 +67,18 @@ def replay(cond, call_text):
     return (r.stdout + r.stderr)[-600:]
 
 
-def run(pid, tier, seed, conds, bounds, outside, assumptions, standins=()):
+def run(pid, tier, seed, conds, bounds, outside, assumptions, standins=(), selfchecks=()):
     t0 = time.time()
     ensure_venv()
     kf = load_known(pid)
     errors, violations, known = [], [], []
+    for sc in selfchecks:
+        # stand-ins are compared with the real callee on concrete boundary cases before anything is believed
+        modname, fn = sc.split(':')
+        r = subprocess.run(['/venv/bin/python', '-c', 'import %s as m, sys; sys.exit(0 if m.%s() else 1)' % (modname, fn)],
+                           capture_output=True, text=True, env=pyenv({'VERIF_REPLAY': '1'}), timeout=300)
+        if r.returncode != 0:
+            errors.append('stand-in self-check %s failed: %s' % (sc, (r.stdout + r.stderr)[-500:]))
     tasks = []
     with ThreadPoolExecutor(NPROC) as tp:
         for c in conds:
